@@ -120,6 +120,17 @@ func TestVerifC05Node(t *testing.T) {
 				}
 			}
 			reply(resp)
+		case "has":
+			// is the session part of the state?
+			resp := c05Resp{Code: 200}
+			if _, err := ircServer.GetSession(robust.Id{Id: c.Num}); err != nil {
+				resp.Code, resp.Err = 404, err.Error()
+			}
+			reply(resp)
+		case "rev":
+			g := n.admin("GET", "/config", nil, "")
+			rev, _ := strconv.ParseUint(g.Header.Get("X-RobustIRC-Config-Revision"), 10, 64)
+			reply(c05Resp{Code: g.Code, Num: rev})
 		case "stop":
 			n.Stop()
 			reply(c05Resp{Code: 200})
@@ -407,6 +418,142 @@ func TestVerifC05(t *testing.T) {
 				res.Samples = append(res.Samples, fmt.Sprintf("%v: streams consistent after every operation; %d client entries in the durable log", seq, len(r.Cmids)))
 			}
 		}
+		child.kill()
+		os.RemoveAll(dir)
+		if res.HarnessErr != "" {
+			break
+		}
+	}
+	b, _ := json.Marshal(res)
+	if o := os.Getenv("VERIF_OUT"); o != "" {
+		os.WriteFile(o, b, 0644)
+	} else {
+		fmt.Println(string(b))
+	}
+}
+
+// TestVerifC05Fresh: a brand-new (or idle) network, where the durable history is short: the very first
+// acknowledged writes (POST /session, POST /config) followed by snapshots, kills and restarts in every
+// order.  Every acknowledged session must still exist and the acknowledged configuration revision must
+// still be in force after every operation; at the end the newest session posts a line.
+func TestVerifC05Fresh(t *testing.T) {
+	shard, _ := strconv.Atoi(os.Getenv("VERIF_SHARD"))
+	nshards, _ := strconv.Atoi(os.Getenv("VERIF_NSHARDS"))
+	if nshards == 0 {
+		nshards = 1
+	}
+	depth := 4
+	if os.Getenv("VERIF_TIER") == "thorough" {
+		depth = 5
+	}
+	if d := os.Getenv("VERIF_DEPTH"); d != "" {
+		depth, _ = strconv.Atoi(d)
+	}
+	var deadline time.Time
+	if d := os.Getenv("VERIF_DEADLINE"); d != "" {
+		sec, _ := strconv.ParseInt(d, 10, 64)
+		deadline = time.Unix(sec, 0)
+	}
+	res := &vSeqResult{EndStates: map[string]int{}, Depth: depth}
+	sigs := map[string]*vViol{}
+	base := t.TempDir()
+	seqs := vSeqs([]string{"create", "config", "snapshot", "kill", "restart"}, depth)
+	if rp := os.Getenv("VERIF_REPLAY"); rp != "" {
+		b, _ := os.ReadFile(rp)
+		var v vViol
+		json.Unmarshal(b, &v)
+		if len(v.Seq) > 0 && v.Seq[0] == "fresh" {
+			seqs = [][]string{v.Seq[1:]}
+		} else {
+			seqs = nil
+		}
+		nshards, shard = 1, 0
+	}
+	for si, seq := range seqs {
+		if si%nshards != shard {
+			continue
+		}
+		if !deadline.IsZero() && time.Now().After(deadline) {
+			res.HarnessErr = "time cap reached"
+			break
+		}
+		full := append([]string{"fresh"}, seq...)
+		dir := fmt.Sprintf("%s/f%d", base, si)
+		child, err := c05Spawn(dir, true)
+		if err != nil {
+			res.HarnessErr = "HARNESS: " + err.Error()
+			break
+		}
+		herr := func(err error) bool {
+			if err != nil && res.HarnessErr == "" {
+				res.HarnessErr = "HARNESS: " + err.Error()
+			}
+			return err != nil
+		}
+		must := func(cmd c05Cmd) c05Resp {
+			r, err := child.call(cmd)
+			herr(err)
+			return r
+		}
+		var sessions []c05Resp
+		ackedRev := uint64(0)
+		res.Sequences++
+		for oi, op := range seq {
+			res.Ops++
+			if res.HarnessErr != "" {
+				break
+			}
+			switch op {
+			case "create":
+				if r := must(c05Cmd{Op: "create"}); r.Code == 200 {
+					sessions = append(sessions, r)
+				} else {
+					res.report(sigs, "C05", "POST /session refused on a healthy single-node network", fmt.Sprintf("sequence %v op %d: %d", seq, oi, r.Code), full)
+				}
+			case "config":
+				if r := must(c05Cmd{Op: "config", Data: vCfgFast}); r.Code == 200 {
+					ackedRev++
+				} else {
+					res.report(sigs, "C05", "POST /config refused on a healthy single-node network", fmt.Sprintf("sequence %v op %d: %d %s", seq, oi, r.Code, r.Err), full)
+				}
+			case "snapshot":
+				// (a snapshot of an empty history is refused; a refused snapshot must not lose anything either)
+				if r := must(c05Cmd{Op: "snapshot"}); r.Code == 200 {
+					res.Snapshots++
+				} else if len(sessions) > 0 || ackedRev > 0 {
+					herr(fmt.Errorf("snapshot: %s", r.Err))
+				}
+			case "kill", "restart":
+				if op == "kill" {
+					child.kill()
+				} else {
+					must(c05Cmd{Op: "stop"})
+					child.cmd.Wait()
+					child.w.Close()
+				}
+				res.Restarts++
+				child, err = c05Spawn(dir, false)
+				herr(err)
+			}
+			if res.HarnessErr != "" {
+				break
+			}
+			for _, s := range sessions {
+				if r := must(c05Cmd{Op: "has", Num: s.Num}); r.Code != 200 {
+					res.report(sigs, "C05", "acknowledged session is gone after "+op, fmt.Sprintf("sequence %v, after op %d: session %d (POST /session answered 200): %s", seq, oi, s.Num, r.Err), full)
+				}
+			}
+			if r := must(c05Cmd{Op: "rev"}); r.Num != ackedRev {
+				res.report(sigs, "C05", "acknowledged configuration is not in force after "+op, fmt.Sprintf("sequence %v, after op %d: revision %d, acknowledged %d", seq, oi, r.Num, ackedRev), full)
+			}
+		}
+		if res.HarnessErr == "" && len(sessions) > 0 {
+			s := sessions[len(sessions)-1]
+			if r := must(c05Cmd{Op: "post", Sid: s.Sid, Auth: s.Auth, Num: s.Num, Data: "NICK fresh", Cmid: 4711}); r.Code != 200 {
+				res.report(sigs, "C05", "acknowledged session cannot post at the end", fmt.Sprintf("sequence %v: POST answered %d %s", seq, r.Code, r.Err), full)
+			}
+		}
+		res.EndStates[fmt.Sprintf("fresh network: %d sessions, revision %d", len(sessions), ackedRev)]++
 		child.kill()
 		os.RemoveAll(dir)
 		if res.HarnessErr != "" {
